@@ -35,6 +35,7 @@ type World struct {
 	tsAbs   map[uint64]int
 	maxReal uint64
 	Padding bool
+	DynTS   bool // name real stamps dynamically also in native mode (loop replays)
 	Sweeper config.Sweeper
 	// every version ever observed in a headered DBI (independent LWW reference)
 	Seen map[int]map[RVer]bool
@@ -319,7 +320,7 @@ func (w *World) headeredDBI() string {
 
 // absTS maps a real timestamp to its abstract value.
 func (w *World) absTS(ts uint64) (int, bool) {
-	if w.Native {
+	if w.Native && !w.DynTS {
 		return w.Conc.AbsTS(ts)
 	}
 	a, ok := w.tsAbs[ts]
@@ -359,7 +360,7 @@ func (w *World) Project(i int, nKeys int, now int) (db map[string]Ver, app map[s
 		if h.Flags&1 != 0 && len(h.Value) != 0 {
 			problems = append(problems, fmt.Sprintf("C14: key %d: deleted entry carries a value", k))
 		}
-		if _, ok := w.absTS(h.TS); !ok && !w.Native {
+		if _, ok := w.absTS(h.TS); !ok && (!w.Native || w.DynTS) {
 			fresh = append(fresh, h.TS)
 		}
 		if w.Seen[k] == nil {
@@ -522,3 +523,6 @@ func (w *World) dbiNames(i int) string {
 	sort.Strings(names)
 	return strings.Join(names, ",")
 }
+
+func makeTempDir() (string, error) { return os.MkdirTemp(os.Getenv("VERIF_TMP"), "verif-w-") }
+func removeDir(d string)           { os.RemoveAll(d) }
